@@ -1,6 +1,6 @@
 SPECIFICATION Spec
 CONSTANTS
-  NCalls = 25
+  NCalls = 27
   MaxLen = 4
 INVARIANT ModesRestored
 INVARIANT NoLeak
